@@ -273,6 +273,11 @@ func main() {
 	h.root = c.Ctx
 	h.base = h.digest(h.root)
 	h.guards = readGuardFacts()
+	for url, g := range h.guards { // informational: which handlers compare case-insensitively
+		if strings.Contains(g, "kind CmpEqualFold") {
+			rep.Count("folding-handler:" + url)
+		}
+	}
 
 	rows, routable, err := authMsgs(c)
 	must(err)
@@ -360,7 +365,7 @@ func (h *harness) exercise(row authMsg, pl payload, vs []variant) {
 	if hasDirect {
 		levels = append(levels, "B")
 	}
-	lite := pl.NoPositive != "" // zero payloads etc.: the router delivery alone, the other levels add nothing there
+	lite := pl.NoPositive != "" && !pl.Full // zero payloads etc.: the router delivery alone, the other levels add nothing there
 	for vi, v := range vs {
 		for _, lv := range levels {
 			// the tx-cache delivery is dominated by A (same handler, writes discarded on error): a rotating quarter
